@@ -182,13 +182,13 @@ impl Brc20ProgDatabase {
         match self.latest_block_number {
             Some((block_number, _)) => return Ok(block_number + 1),
             None => {
+                // On an empty database the next block is the genesis block, 0
                 return Ok(self
                     .db_block_number_to_hash
                     .as_ref()
                     .expect(DB_MUTEX_ERROR)
                     .last_key()?
-                    .unwrap_or(0)
-                    + 1);
+                    .map_or(0, |last_key| last_key + 1));
             }
         }
     }
